@@ -98,6 +98,7 @@ class GenCfg:
     bwd_end_tie: bool = False        # the last autograd operator inside a backward annotation / profiler step ends exactly when that one ends
     rank_ids: Optional[Tuple[int, ...]] = None   # the job's rank numbers when they are not 0..n-1 (a sampled job: e.g. ranks 0, 2, 5)
     p_launch_at_step_end: float = 0.0  # a launch call of the main thread begins at the very instant a profiler step ends (window boundary)
+    p_launch_after_op: float = 0.0   # a launch call (a sibling, not a child) begins at the very instant an operator ends
     p_mem_as_kernel: float = 0.0     # a cudaMemsetAsync / cudaMemcpyAsync call whose linked device activity is of category "kernel"
     p_graph_launch: float = 0.0      # a launch call starts SEVERAL kernels that all carry its correlation id (CUDA graph launch); outside the
                                      # "one host call, one device activity per id" domain, so only for properties without that restriction
@@ -348,6 +349,9 @@ class _Sim:
         e["dur"] = t - start
         if n_children and cfg.p_overhang and rng.random() < cfg.p_overhang and e["dur"] > 2:
             e["dur"] -= rng.choice((1, 2))
+        elif e["dur"] > 0 and rng.random() < cfg.p_launch_after_op:
+            yield t
+            t = self.launch(tid, t)       # starts exactly where the operator ended
         return t
 
     def leaf(self, tid: int, t: int) -> int:
